@@ -63,7 +63,8 @@
 #define VF_CFGS( e, TOP, ACT )                                                                                              \
    VF_CFG( "act-req-obs-eager", TOP, ACT, vf::obs_control_unw, action, required, eager, true, true, false, true, true );     \
    VF_CFG_MI( "mustif-act-req-eager", TOP, ACT, action, required, eager, true, true, false );                               \
-   VF_CFG_MI( "mustif-act-opt-lazy", TOP, ACT, action, optional, lazy, true, false, true )
+   VF_CFG_MI( "mustif-act-opt-lazy", TOP, ACT, action, optional, lazy, true, false, true );                                 \
+   e.cfgs.push_back( vf::cfg_entry{ "mustif-over-normal-act-req-eager", &vf::runner< TOP, ACT, tao::pegtl::must_if< errs, tao::pegtl::normal, false >::template control, tao::pegtl::apply_mode::action, tao::pegtl::rewind_mode::required, tao::pegtl::tracking_mode::eager, VF_EOL >, true, true, false, false, true, VF_EOL_ID, 0, 1, 1, -1, false, true } )
 #elif VF_CFGSET == 4
 // C08: observer through state_control, and the coverage facility
 #define VF_CFGS( e, TOP, ACT )                                                                                                 \
